@@ -75,7 +75,7 @@ func (m *cacheModel) load(key interface{}) (interface{}, error) {
 	kh := scn.HashString(ks)
 	var e *Env
 	if s != nil {
-		if cur := s.current.Load(); cur >= 0 {
+		if cur := s.who(); cur >= 0 {
 			e = s.tasks[cur].env
 		} else {
 			e = s.mainEnv
@@ -101,7 +101,7 @@ func (m *cacheModel) load(key interface{}) (interface{}, error) {
 		return nil, err
 	}
 	if s != nil {
-		if s.mode == 'H' || s.current.Load() < 0 {
+		if s.mode == 'H' || s.who() < 0 {
 			m.okLoads[kh]++
 		}
 		s.onEvent(evLoadOK, kh, nil) // in mode G the scheduler counts it
@@ -153,7 +153,7 @@ func (m *cacheModel) opGet(step int, e *Env, key string, fail bool) string {
 		kind := "no-progress"
 		if strings.Contains(ab, "deadlock") {
 			kind = "deadlock"
-			x.stop = x.sim.current.Load() < 0
+			x.stop = x.sim.who() < 0
 		}
 		x.viol(kind, kind+":get", fmt.Sprintf("get(%q): %s", key, ab), step)
 		return "abort"
@@ -199,7 +199,7 @@ func guardedGet(get func(interface{}) (interface{}, error), key string) (v inter
 
 func (x *exec) countFault(k string) {
 	s := x.sim
-	if cur := s.current.Load(); cur >= 0 {
+	if cur := s.who(); cur >= 0 {
 		s.tasks[cur].stats.Faults[k]++
 		return
 	}
